@@ -104,6 +104,34 @@ pub(crate) fn assert_buffer_inv(b: &Buffer) {
     }
 }
 
+/// R-pos: relative_position(logical_position(p)) == p at a fixed width, for any soft-wrap marks
+pub(crate) fn t_rpos(cols: usize, rows: usize, sb: usize) {
+    let b = mk_buffer(cols, rows, sb, None, false, Fill::Blank);
+    // marks symbolic (the last line stays unwrapped)
+    let mut b = b;
+    let n = b.lines.len();
+    for i in 0..n - 1 {
+        b.lines[i].wrapped = any_bool();
+    }
+    let c = any_in(0, cols - 1);
+    let r = any_in(0, rows - 1);
+    let log = b.logical_position((c, r), cols, rows);
+    let rel = b.relative_position(log, cols, rows);
+    assert!(rel.0 == c && rel.1 == r as isize, "[C10] translating the cursor to its logical position and back is the identity at a fixed width");
+    // the logical column counts the cells of the wrapped rows before it
+    let abs = n - rows + r;
+    let mut k = 0usize;
+    let mut i = abs;
+    while i > 0 && b.lines[i - 1].wrapped {
+        k += 1;
+        i -= 1;
+    }
+    assert!(log.0 == c + k * cols, "[C10] the logical column counts whole rows of the same logical line");
+    kv_cover!(k >= 2, "third row of a logical line");
+    kv_end!();
+    std::mem::forget(b);
+}
+
 impl Buffer {
     /// contract of Buffer::resize used by the two glue harnesses that need to get past a *width*
     /// change (the reflow code itself is out of CBMC's reach, DESIGN.md section 0): the geometry
